@@ -4,7 +4,7 @@
 
 use std::collections::{BTreeMap, HashMap};
 use std::io::{Read, Write};
-use std::net::{SocketAddr, TcpListener, TcpStream};
+use std::net::{SocketAddr, TcpListener, TcpStream, UdpSocket};
 use std::sync::atomic::{AtomicBool, Ordering};
 use std::sync::{Arc, Mutex, OnceLock};
 use std::thread::JoinHandle;
@@ -13,24 +13,30 @@ use std::time::{Duration, Instant};
 use serde_json::{Value, json};
 use sozu_command_lib::config::ListenerBuilder;
 use sozu_command_lib::proto::command::{
-    ActivateListener, Cluster, DeactivateListener, HardStop, HealthCheckConfig, ListenerType, MetricDetail,
-    MetricsConfiguration, QueryCertificatesFilters, QueryClusterByDomain, QueryClustersHashes,
-    QueryMaxConnectionsPerIp, QueryMetricsOptions, RemoveBackend, RemoveListener, ReturnListenSockets,
-    SetHealthCheck, SetMetricDetail, SoftStop, Status, UpdateHttpListenerConfig, UpdateHttpsListenerConfig,
-    UpdateTcpListenerConfig, UpdateUdpListenerConfig, request::RequestType,
+    ActivateListener, Cluster, DeactivateListener, HardStop, HealthCheckConfig, ListWorkers, ListenerType, MetricDetail,
+    MetricsConfiguration, ProxyProtocolConfig, QueryCertificatesFilters, QueryClusterByDomain, QueryClustersHashes,
+    QueryMaxConnectionsPerIp, QueryMetricsOptions, RemoveBackend, RemoveListener, Request, RequestUdpFrontend,
+    ReturnListenSockets, SetHealthCheck, SetMetricDetail, SoftStop, Status, UdpAffinityKey, UdpClusterConfig,
+    UpdateHttpListenerConfig, UpdateHttpsListenerConfig, UpdateTcpListenerConfig, UpdateUdpListenerConfig,
+    request::RequestType,
 };
 use sozu_command_lib::state::ConfigState;
 
 use crate::worker::Worker;
 
 /// model listener id -> (protocol, address slot)
-pub const LDEF: &[(&str, &str, u16)] =
-    &[("hA", "http", 0), ("hB", "http", 1), ("tC", "tcp", 2), ("sD", "https", 3), ("uE", "udp", 4)];
+pub const LDEF: &[(&str, &str, u16)] = &[
+    ("hA", "http", 0), ("hB", "http", 1), ("tC", "tcp", 2), ("sD", "https", 3), ("uE", "udp", 4),
+    // a second listener of the same kind (slots 5..7 are the backends)
+    ("uF", "udp", 8), ("tG", "tcp", 9),
+];
 /// model http frontend id -> (cluster, listener, host)
 pub const FDEF: &[(&str, &str, &str, &str)] =
     &[("f1", "c1", "hA", "a"), ("f2", "c2", "hA", "b"), ("f3", "c2", "hA", "a"), ("f4", "c1", "hB", "a")];
 /// model tcp frontend id -> (cluster, listener)
-pub const TDEF: &[(&str, &str, &str)] = &[("t1", "c1", "tC"), ("t2", "c2", "tC")];
+pub const TDEF: &[(&str, &str, &str)] = &[("t1", "c1", "tC"), ("t2", "c2", "tC"), ("t3", "c1", "tG")];
+/// model udp frontend id -> (cluster, listener)
+pub const UDEF: &[(&str, &str, &str)] = &[("u1", "c1", "uE"), ("u2", "c1", "uF"), ("u3", "c2", "uE")];
 /// model backend id -> (cluster, address slot)
 pub const BDEF: &[(&str, &str, u16)] = &[("b1", "c1", 5), ("b2", "c2", 6), ("b3", "c1", 7)];
 pub const HOSTS: &[&str] = &["a", "b", "z"];
@@ -89,9 +95,83 @@ fn health_check(uri: &str) -> HealthCheckConfig {
     }
 }
 
+/// The plain definition of cluster `id` (udp flows keyed by source ip AND port).
+pub fn plain_cluster(id: &str) -> Cluster {
+    Cluster {
+        udp: Some(UdpClusterConfig { affinity_key: Some(UdpAffinityKey::SourceIpPort as i32), ..Default::default() }),
+        ..Worker::default_cluster(id)
+    }
+}
+
+/// The alternative definition of cluster `id`, visible on every kind of listener: plain-http requests
+/// are redirected (https_redirect), tcp and udp backends get a PROXY protocol v2 header first.
+pub fn alt_cluster(id: &str) -> Cluster {
+    Cluster {
+        https_redirect: true,
+        proxy_protocol: Some(ProxyProtocolConfig::SendHeader as i32),
+        udp: Some(UdpClusterConfig {
+            affinity_key: Some(UdpAffinityKey::SourceIpPort as i32),
+            send_proxy_protocol: Some(true),
+            ..Default::default()
+        }),
+        ..Worker::default_cluster(id)
+    }
+}
+
+/// A value outside every enum of the command protocol (protobuf enums are open i32s on the wire).
+pub const BAD_ENUM: i32 = 99;
+
+/// The concrete message for the model request [k, a] (`NoType`: a request without a request type).
+pub fn build_request_full(k: &str, a: &str, ad: &Addrs) -> Request {
+    if k == "NoType" {
+        return Request { request_type: None };
+    }
+    build_request(k, a, ad).into()
+}
+
 /// The concrete request for the model request [k, a].
 pub fn build_request(k: &str, a: &str, ad: &Addrs) -> RequestType {
     match k {
+        // ---- malformed requests: enum fields outside their enum, a kind meant for the main process
+        "RemoveListenerBadType" => {
+            let (_, addr) = ad.listener(a);
+            RequestType::RemoveListener(RemoveListener { address: addr.into(), proxy: 4 })
+        }
+        "ActivateBadType" => {
+            let (_, addr) = ad.listener(a);
+            RequestType::ActivateListener(ActivateListener { address: addr.into(), proxy: -1, from_scm: false })
+        }
+        "DeactivateBadType" => {
+            let (_, addr) = ad.listener(a);
+            RequestType::DeactivateListener(DeactivateListener { address: addr.into(), proxy: i32::MAX, to_scm: false })
+        }
+        "ForeignKind" => RequestType::ListWorkers(ListWorkers {}),
+        "ConfigureMetricsBad" => RequestType::ConfigureMetrics(BAD_ENUM),
+        "MetricDetailBadEnum" => RequestType::SetMetricDetail(SetMetricDetail {
+            client_id: "c08".to_string(),
+            detail: Some(BAD_ENUM),
+            ttl_seconds: Some(30),
+            ..Default::default()
+        }),
+        "AddHFrontBadPos" | "AddHFrontBadKind" => {
+            let d = FDEF.iter().find(|d| d.0 == a).unwrap_or_else(|| panic!("unknown front {a}"));
+            let mut f = Worker::http_frontend(d.1, ad.listener(d.2).1, &hostname(d.3), "/");
+            if k == "AddHFrontBadPos" { f.position = BAD_ENUM } else { f.path.kind = BAD_ENUM }
+            RequestType::AddHttpFrontend(f)
+        }
+        "AddClusterBadEnums" => RequestType::AddCluster(Cluster {
+            load_balancing: BAD_ENUM,
+            load_metric: Some(BAD_ENUM),
+            proxy_protocol: Some(BAD_ENUM),
+            udp: Some(UdpClusterConfig { affinity_key: Some(BAD_ENUM), ..Default::default() }),
+            ..Worker::default_cluster(a)
+        }),
+        "AddClusterAlt" => RequestType::AddCluster(alt_cluster(a)),
+        "AddUFront" | "RemoveUFront" => {
+            let d = UDEF.iter().find(|d| d.0 == a).unwrap_or_else(|| panic!("unknown udp front {a}"));
+            let f = RequestUdpFrontend { cluster_id: d.1.to_string(), address: ad.listener(d.2).1.into(), tags: Default::default() };
+            if k == "AddUFront" { RequestType::AddUdpFrontend(f) } else { RequestType::RemoveUdpFrontend(f) }
+        }
         // worker-level verbs
         "Status" => RequestType::Status(Status {}),
         "QueryHashes" => RequestType::QueryClustersHashes(QueryClustersHashes {}),
@@ -130,7 +210,7 @@ pub fn build_request(k: &str, a: &str, ad: &Addrs) -> RequestType {
         }),
         // clusters
         "QueryCluster" => RequestType::QueryClusterById(a.to_string()),
-        "AddCluster" => RequestType::AddCluster(Worker::default_cluster(a)),
+        "AddCluster" => RequestType::AddCluster(plain_cluster(a)),
         "AddClusterBadHc" => RequestType::AddCluster(Cluster {
             health_check: Some(health_check("no-leading-slash")),
             ..Worker::default_cluster(a)
@@ -245,9 +325,21 @@ pub fn project_config(state: &ConfigState, ad: &Addrs, listeners: &[String]) -> 
     let mut hc: Vec<String> =
         state.clusters.iter().filter(|(_, c)| c.health_check.is_some()).map(|(k, _)| k.clone()).collect();
     hc.sort();
+    // an http frontend whose PathRuleKind is outside the enum (ConfigState keeps at most one, under a
+    // degenerate key): not a route, shown apart as the listener it names
+    let known_kind = |k: i32| sozu_command_lib::proto::command::PathRuleKind::try_from(k).is_ok();
+    let ghost: String = state
+        .http_fronts
+        .values()
+        .find(|f| !known_kind(f.path.kind))
+        .map(|f| {
+            LDEF.iter().find(|d| ad.slot(d.2) == f.address && d.1 == "http").map(|d| d.0.to_string()).unwrap_or_else(|| format!("?{}", f.address))
+        })
+        .unwrap_or_else(|| "none".to_string());
     let mut hf: Vec<String> = state
         .http_fronts
         .values()
+        .filter(|f| known_kind(f.path.kind))
         .map(|f| {
             FDEF.iter()
                 .find(|d| {
@@ -282,7 +374,21 @@ pub fn project_config(state: &ConfigState, ad: &Addrs, listeners: &[String]) -> 
         })
         .collect();
     be.sort();
-    json!({"lst": lst, "cl": cl, "hc": hc, "hf": hf, "tf": tf, "be": be})
+    let mut uf: Vec<String> = state
+        .udp_fronts
+        .iter()
+        .flat_map(|(c, v)| v.iter().map(move |f| (c.clone(), f.address)))
+        .map(|(c, a)| {
+            UDEF.iter()
+                .find(|d| d.1 == c && ad.listener(d.2).1 == a)
+                .map(|d| d.0.to_string())
+                .unwrap_or_else(|| format!("?{c}@{a}"))
+        })
+        .collect();
+    uf.sort();
+    let mut alt: Vec<String> = state.clusters.iter().filter(|(_, c)| c.https_redirect).map(|(k, _)| k.clone()).collect();
+    alt.sort();
+    json!({"lst": lst, "cl": cl, "hc": hc, "hf": hf, "tf": tf, "be": be, "uf": uf, "alt": alt, "ghost": ghost})
 }
 
 /// The answer of a worker to QueryClusterById(c) as a `view` trace event in the spec's terms.
@@ -293,12 +399,13 @@ pub fn view_event(
     ad: &Addrs,
 ) -> Value {
     let Some(ci) = infos.first() else {
-        return json!({"ev": "view", "run": run, "c": c, "present": false, "hc": false, "hf": [], "tf": [], "be": []});
+        return json!({"ev": "view", "run": run, "c": c, "present": false, "hc": false, "hf": [], "tf": [], "be": [], "uf": [], "alt": false});
     };
     let hc = ci.configuration.as_ref().map(|x| x.health_check.is_some()).unwrap_or(false);
     let mut hf: Vec<String> = ci
         .http_frontends
         .iter()
+        .filter(|f| sozu_command_lib::proto::command::PathRuleKind::try_from(f.path.kind).is_ok())
         .map(|f| {
             let addr: SocketAddr = f.address.into();
             FDEF.iter()
@@ -332,7 +439,21 @@ pub fn view_event(
         })
         .collect();
     be.sort();
-    json!({"ev": "view", "run": run, "c": c, "present": ci.configuration.is_some(), "hc": hc, "hf": hf, "tf": tf, "be": be})
+    let mut uf: Vec<String> = ci
+        .udp_frontends
+        .iter()
+        .map(|f| {
+            let addr: SocketAddr = f.address.into();
+            UDEF.iter()
+                .find(|d| d.1 == f.cluster_id && ad.listener(d.2).1 == addr)
+                .map(|d| d.0.to_string())
+                .unwrap_or_else(|| format!("?{}", f.cluster_id))
+        })
+        .collect();
+    uf.sort();
+    let alt = ci.configuration.as_ref().map(|x| x.https_redirect).unwrap_or(false);
+    json!({"ev": "view", "run": run, "c": c, "present": ci.configuration.is_some(), "hc": hc, "hf": hf, "tf": tf, "be": be,
+           "uf": uf, "alt": alt})
 }
 
 /// Sort every array of a JSON value (sets printed by TLC come in arbitrary order).
@@ -350,6 +471,9 @@ pub fn normalise(v: &Value) -> Value {
 
 // ---- mock backends ---------------------------------------------------------------------------
 
+/// signature of a PROXY protocol v2 header
+pub const PP2_SIG: [u8; 12] = [0x0D, 0x0A, 0x0D, 0x0A, 0x00, 0x0D, 0x0A, 0x51, 0x55, 0x49, 0x54, 0x0A];
+
 /// A mock backend answers `GET ...` with `200` and its id as body, anything else (a line) with
 /// `<id>\n`. One thread per backend plus one per connection; stops when dropped.
 pub struct MockBackends {
@@ -362,10 +486,28 @@ fn serve(mut s: TcpStream, id: String) {
     let _ = s.set_nodelay(true);
     let mut buf: Vec<u8> = Vec::new();
     let mut tmp = [0u8; 2048];
+    // a PROXY protocol v2 header ahead of everything else: remembered, reported as "<id>+pp"
+    let mut start = true;
+    let mut id = id;
     loop {
         match s.read(&mut tmp) {
             Ok(0) | Err(_) => return,
             Ok(n) => buf.extend_from_slice(&tmp[..n]),
+        }
+        if start {
+            let k = buf.len().min(PP2_SIG.len());
+            if buf[..k] == PP2_SIG[..k] {
+                if buf.len() < 16 {
+                    continue;
+                }
+                let total = 16 + u16::from_be_bytes([buf[14], buf[15]]) as usize;
+                if buf.len() < total {
+                    continue;
+                }
+                buf.drain(..total);
+                id = format!("{id}+pp");
+            }
+            start = false;
         }
         loop {
             if buf.starts_with(b"GET ") || buf.starts_with(b"HEAD ") {
@@ -466,6 +608,7 @@ fn parse_http(buf: &[u8]) -> Option<String> {
     let head = String::from_utf8_lossy(&buf[..head_end]).to_string();
     let code: u32 = head.split_whitespace().nth(1)?.parse().ok()?;
     match code {
+        301 => Some("301".to_string()),
         404 => Some("404".to_string()),
         503 => Some("503".to_string()),
         200 => {
@@ -750,7 +893,7 @@ pub fn run_probes_faults(ad: &Addrs, listeners: &[String], wait: Duration, held:
 /// the same machine) that happens to use the same loopback IP and port block would look like a
 /// foreign process holding addresses the spec knows nothing about.
 pub fn addresses_free(ad: &Addrs) -> bool {
-    (0..8u16).all(|slot| {
+    (0..10u16).all(|slot| {
         let addr = ad.slot(slot);
         TcpListener::bind(addr).is_ok() && std::net::UdpSocket::bind(addr).is_ok()
     })
@@ -766,4 +909,95 @@ pub fn free_addrs_for(index: u64, port: u16) -> Option<Addrs> {
         }
     }
     None
+}
+
+// ---- the UDP data path: mock datagram backends, one-datagram probes through udp listeners ---------
+
+/// One UDP socket per backend id, on the backend's address (the TCP mock of the same backend uses
+/// the same port number: different name spaces). Everything that arrives is kept with its origin.
+pub struct UdpMocks {
+    socks: Vec<(String, UdpSocket)>,
+    seen: Vec<(String, Vec<u8>)>,
+}
+
+impl UdpMocks {
+    pub fn start(ad: &Addrs, ids: &[String]) -> UdpMocks {
+        let mut socks = Vec::new();
+        for id in ids {
+            let addr = ad.backend(id).1;
+            let s = UdpSocket::bind(addr).unwrap_or_else(|e| panic!("mock udp backend {id} cannot bind {addr}: {e}"));
+            s.set_nonblocking(true).expect("nonblocking");
+            socks.push((id.clone(), s));
+        }
+        UdpMocks { socks, seen: Vec::new() }
+    }
+    fn poll(&mut self) {
+        let mut buf = [0u8; 4096];
+        for (id, s) in &self.socks {
+            while let Ok((n, _)) = s.recv_from(&mut buf) {
+                self.seen.push((id.clone(), buf[..n].to_vec()));
+            }
+        }
+    }
+}
+
+/// A datagram of a NEW flow sent through a udp listener: fresh client socket on a source address
+/// no earlier probe used (flows may be keyed by source ip only), payload unique in the process.
+pub struct UdpShot {
+    pub l: String,
+    payload: Vec<u8>,
+    _client: Option<UdpSocket>,
+}
+
+static NEXT_SHOT: std::sync::atomic::AtomicU32 = std::sync::atomic::AtomicU32::new(0);
+
+pub fn udp_shoot(ad: &Addrs, l: &str) -> UdpShot {
+    let n = NEXT_SHOT.fetch_add(1, Ordering::SeqCst);
+    let src = [127, 64 + ((n / 62_500) % 64) as u8, ((n / 250) % 250) as u8, (n % 250) as u8 + 1];
+    let payload = format!("probe-{}-{}-{l}", std::process::id(), n).into_bytes();
+    let target = ad.listener(l).1;
+    let client = UdpSocket::bind(SocketAddr::from((src, 0))).or_else(|_| UdpSocket::bind("127.0.0.1:0")).ok();
+    if let Some(c) = &client {
+        let _ = c.send_to(&payload, target);
+    }
+    UdpShot { l: l.to_string(), payload, _client: client }
+}
+
+/// What became of each shot: "<backend id>" (arrived verbatim), "<backend id>+pp" (behind a PROXY
+/// protocol v2 header), "<backend id>?" (arrived altered) or "drop". A shot the caller expects to be
+/// delivered (`expect`) is waited for up to `long`; "drop" is concluded for the others after `grace`
+/// - the caller has made a round trip on the command channel since the datagrams were sent, a
+/// forwarded datagram has been in the backend's socket since.
+pub fn udp_collect(mocks: &mut UdpMocks, shots: &[UdpShot], expect: &[bool], long: Duration, grace: Duration) -> Vec<String> {
+    let t0 = Instant::now();
+    let mut out: Vec<Option<String>> = vec![None; shots.len()];
+    loop {
+        mocks.poll();
+        for (id, bytes) in mocks.seen.drain(..) {
+            let (pp, body) = if bytes.len() >= 16 && bytes[..12] == PP2_SIG {
+                let total = 16 + u16::from_be_bytes([bytes[14], bytes[15]]) as usize;
+                if bytes.len() >= total { (true, bytes[total..].to_vec()) } else { (true, Vec::new()) }
+            } else {
+                (false, bytes.clone())
+            };
+            if let Some(i) = shots.iter().position(|s| s.payload == body) {
+                out[i].get_or_insert(if pp { format!("{id}+pp") } else { id.clone() });
+            } else if let Some(i) = shots.iter().position(|s| bytes.windows(s.payload.len().min(bytes.len()).max(1)).any(|w| w == &s.payload[..])) {
+                out[i].get_or_insert(format!("{id}?"));
+            }
+            // anything else is a late datagram of an earlier probe
+        }
+        let el = t0.elapsed();
+        let waiting = out.iter().enumerate().any(|(i, o)| o.is_none() && el < if expect.get(i).copied().unwrap_or(false) { long } else { grace });
+        if !waiting {
+            break;
+        }
+        std::thread::sleep(Duration::from_millis(1));
+    }
+    out.into_iter().map(|o| o.unwrap_or_else(|| "drop".to_string())).collect()
+}
+
+/// The udp listeners among `listeners`.
+pub fn udp_listeners(ad: &Addrs, listeners: &[String]) -> Vec<String> {
+    listeners.iter().filter(|l| ad.listener(l).0 == "udp").cloned().collect()
 }
